@@ -373,7 +373,14 @@ def checkBuffer (stats : Bool) (line : String) : String :=
             (es.zipIdx).map fun (e, si) => (li, si, es.length, isClosed, e)
           let arr := lineSegs.toArray
           let repeated := A.lines.any fun l => (edges l).any fun e => e.1 == e.2
-          let selfX := repeated || (List.range arr.size).any fun i => (List.range arr.size).any fun j =>
+          -- ... or a vertex of a line lies within rounding distance (64 ulps of the largest coordinate) of a segment it is not an
+          -- end point of: contact that the arbitrary-double similarity map has rounded apart
+          let lg : Int := (maxAbs.log2 : Int) - 46
+          let nearTol : Rat := if lg ≥ 0 then (((2 : Int) ^ lg.toNat : Int) : Rat) else 1 / (((2 : Int) ^ (-lg).toNat : Int) : Rat)
+          let nearTol2 := qOfRat (nearTol * nearTol)
+          let nearTouch := A.lines.flatten.any fun v => lineSegs.any fun (_, _, _, _, e) =>
+            v != e.p && v != e.q && (d2Seg (HPt.ofPt v) e).le nearTol2
+          let selfX := repeated || nearTouch || (List.range arr.size).any fun i => (List.range arr.size).any fun j =>
             if j ≤ i then false
             else
               let (li, si, n, cl, a) := arr[i]!
